@@ -309,6 +309,11 @@ func encodeTop(vc *VC, fn *ssa.Function, d *Decl) []inputVar {
 	if len(d.Get("onk")) > 0 && fr.kpoints == 0 {
 		vc.oblige("onk-missing", "", "true", "false", "the contract has onk clauses but no point was found where the continuation may run (a callee that receives it lacks `calls k`, or it is invoked in a way the encoder does not follow)", fr.props, posOf(fn, fn.Pos()))
 	}
+	for _, cl := range d.Get("at-event") {
+		if !fr.atCallSeen[cl] {
+			vc.oblige("at-event-missing", sanitizeLit(strings.Join(strings.Fields(cl.Text)[:2], "-")), "true", "false", "the function no longer performs the channel operation this clause is about: at-event "+cl.Text, fr.props, posOf(fn, fn.Pos()))
+		}
+	}
 	for _, cl := range d.Get("at-store") {
 		if !fr.atCallSeen[cl] {
 			vc.oblige("at-store-missing", sanitizeLit(firstWord(strings.TrimSpace(cl.Text))), "true", "false", "the function no longer stores into the field this clause is about: at-store "+cl.Text, fr.props, posOf(fn, fn.Pos()))
